@@ -4,6 +4,7 @@ package main
 
 import (
 	"fmt"
+	"strings"
 	"go/token"
 	"go/types"
 
@@ -183,6 +184,14 @@ func (st *State) clone() *State {
 func (st *State) assume(t Term) {
 	if t.S == "true" {
 		return
+	}
+	if strings.HasPrefix(t.S, "(and ") {
+		if args, ok := splitArgs(t.S, "and"); ok {
+			for _, a := range args {
+				st.assume(Term{a, SBool})
+			}
+			return
+		}
 	}
 	if st.pcSet[t.S] {
 		return
